@@ -6,7 +6,7 @@ id=$1; wt=$2; prop=$3; tests=$4
 cd "$wt" || exit 3
 git diff -- src > /tmp/_seed_$id.diff
 if ! [ -s /tmp/_seed_$id.diff ]; then echo "no change applied in $wt"; exit 3; fi
-export PYTHONPATH=$wt/src
+export PYTHONPATH=$wt/src${SEED_EXTRA_PYTHONPATH:+:$SEED_EXTRA_PYTHONPATH}
 where=$(/venv/bin/python -c "import twisted; print(twisted.__file__)")
 case "$where" in $wt/*) ;; *) echo "twisted imported from $where"; exit 3;; esac
 echo "== tests with the change applied"
